@@ -269,3 +269,85 @@ def process_state_rule(ctx: Ctx, rid: str, entries: list, what: str, census: boo
     if census:
         from .c12 import shared_container_census
         shared_container_census(ctx, rid, reach, floor=0)
+
+
+def _unit_capture(items) -> str:
+    """What a regex unit group captures from the text 'min' (structural walk of the group's AST; greedy, first alternative wins)."""
+    items = list(items)
+    if len(items) == 1 and str(items[0][0]) == "MAX_REPEAT" and items[0][1][0] == 0 and items[0][1][1] == 1:
+        inner = list(items[0][1][2])
+        if len(inner) == 1 and str(inner[0][0]) == "SUBPATTERN":
+            return _unit_capture(inner[0][1][3])
+        return _unit_capture(inner)
+    if len(items) == 1 and str(items[0][0]) == "SUBPATTERN":
+        return _unit_capture(items[0][1][3])
+
+    def cls(av):
+        return {chr(v) for (o, v) in av if str(o) == "LITERAL"}
+    if len(items) == 1 and str(items[0][0]) == "BRANCH":
+        for alt in items[0][1][1]:
+            alt = list(alt)
+            if all(str(o) == "LITERAL" for o, _ in alt):
+                s_ = "".join(chr(v) for _, v in alt)
+                if "min".startswith(s_) and s_:
+                    return s_
+            elif len(alt) == 1 and str(alt[0][0]) == "IN":
+                if "m" in cls(alt[0][1]):
+                    return "m"
+            else:
+                return "?"
+        return ""
+    if len(items) == 1 and str(items[0][0]) == "MAX_REPEAT":
+        lo, hi, sub = items[0][1]
+        sub = list(sub)
+        if len(sub) == 1 and str(sub[0][0]) == "IN":
+            c = cls(sub[0][1])
+            out = ""
+            for ch in "min":
+                if ch in c and len(out) < int(hi):
+                    out += ch
+                else:
+                    break
+            return out
+        return "?"
+    if len(items) == 1 and str(items[0][0]) == "IN":
+        return "m" if "m" in cls(items[0][1]) else ""
+    if all(str(o) == "LITERAL" for o, _ in items):
+        s_ = "".join(chr(v) for _, v in items)
+        return s_ if "min".startswith(s_) else ""
+    return "?"
+
+
+def duration_unit_rule(ctx: Ctx, rid: str, floor: int = 5):
+    """Every pattern that takes a duration apart ('<number><unit>') reads the unit `min` as minutes: its unit group captures the
+    whole of 'min' (not its first letter, which is the month unit) and the code has a case for it.  Sibling cross-check of all
+    duration parsers of the repository (regex syntax trees, nothing is matched at run time)."""
+    import re._parser as _sre
+    n = 0
+    for fn in sorted(ctx.repo.all_funcs(), key=lambda f: f.key):
+        for c in own_nodes(fn):
+            if not (isinstance(c, ast.Call) and norm(c.func) in ("re.match", "re.fullmatch", "re.search", "re.compile") and c.args
+                    and isinstance(c.args[0], ast.Constant) and isinstance(c.args[0].value, str)):
+                continue
+            pat = c.args[0].value
+            if not pat.startswith(r"(\d+"):
+                continue
+            try:
+                tree = list(_sre.parse(pat))
+            except Exception:
+                continue
+            groups = [(op, av) for (op, av) in tree if str(op) == "SUBPATTERN" or
+                      (str(op) == "MAX_REPEAT" and len(list(av[2])) == 1 and str(list(av[2])[0][0]) == "SUBPATTERN")]
+            if len(groups) < 2:
+                continue
+            cap = _unit_capture([groups[1]])
+            # letters only: a unit group
+            n += 1
+            handled = any(isinstance(x, ast.Constant) and x.value == "min" for x in own_nodes(fn))
+            ok = cap == "min" and handled
+            ctx.ob(rid, f"{fn.qual}: pattern {pat!r} reads the unit of '30min' as {cap!r}", (fn, c), ok,
+                   "minutes are told from months, and the function has a case for 'min'" if ok else
+                   (f"the unit group captures {cap!r} from 'min': a value such as `30min` is converted with the month factor"
+                    if cap != "min" else "the pattern captures 'min' but the function has no case for it: the value falls to the default factor"),
+                   key=key_of_text(rid, fn.qual, f"unit of {pat}"))
+    ctx.floor(rid, floor)
